@@ -26,6 +26,7 @@ THE SOFTWARE.
 """
 
 import ast
+import math
 import os
 import sys
 from collections.abc import Mapping
@@ -227,6 +228,11 @@ class NumpyCodegenMapper(CachedMapper[str, Never, []]):
                                            attr=cast("str", e_np.dtype.name)),
                         args=[_constant(value="nan")],
                         keywords=[])
+                elif (isinstance(e, int | float) and not isinstance(e, np.generic)
+                        and math.copysign(1, e) < 0):
+                    # ast.unparse does not parenthesize a negative constant:
+                    # (-2)**x would be emitted as -2**x.
+                    return ast.UnaryOp(ast.USub(), _constant(-e))
                 else:
                     return _constant(e)
 
